@@ -231,8 +231,13 @@ def _serve_b(w, i):
     return r
 
 
+PLAIN_DIR_LIST = ("[url.HTMLURLHandler, gophermap.BuckGophermapHandler, mbox.MaildirFolderHandler, mbox.MaildirMessageHandler, "
+                  "dir.DirHandler, html.HTMLFileTitleHandler, mbox.MBoxMessageHandler, mbox.MBoxFolderHandler, file.FileHandler]")
+_b_handlers = "full"
+
+
 def _fresh_b(cachetime):
-    return rig.World(worlds.standard_spec(full=True), handlers="full", cachetime=cachetime, tag="c03b")
+    return rig.World(worlds.standard_spec(full=True), handlers=_b_handlers, cachetime=cachetime, tag="c03b")
 
 
 def _run_history(hist, cachetime, fresh_answers):
@@ -268,8 +273,10 @@ def _fresh_answers(cachetime):
 
 
 def _shard_b(shard, seed, tier):
+    global _b_handlers
     part = core.Partial()
-    cachetime, hists = shard
+    cachetime, hists = shard[:2]
+    _b_handlers = shard[2] if len(shard) > 2 else "full"
     fresh = _fresh_answers(cachetime)
     for hist in hists:
         bad, digest, lz = _run_history(hist, cachetime, fresh)
@@ -280,8 +287,8 @@ def _shard_b(shard, seed, tier):
         if len(part.samples) < 1:
             part.sample({"history": [list(MENU_B[i]) for i in hist], "cachetime": cachetime})
         if bad:
-            key = "b|cachetime=%d|%s|%s" % (cachetime, "->".join("%s:%s" % (MENU_B[i][0], MENU_B[i][1].decode()) for i in hist), bad[0])
-            part.violation(key, bad[1], {"part": "b", "cachetime": cachetime, "hist": list(hist)})
+            key = "b|%s|cachetime=%d|%s|%s" % ("full" if _b_handlers == "full" else "plain-dir", cachetime, "->".join("%s:%s" % (MENU_B[i][0], MENU_B[i][1].decode()) for i in hist), bad[0])
+            part.violation(key, bad[1], {"part": "b", "cachetime": cachetime, "hist": list(hist), "handlers": _b_handlers})
     return part
 
 
@@ -294,6 +301,8 @@ def replay(case):
                 w.destroy()
             _world.clear()
         return (bad[0], bad[1]) if bad else None
+    global _b_handlers
+    _b_handlers = case.get("handlers", "full")
     fresh = _fresh_answers(case["cachetime"])
     bad, _, _ = _run_history(case["hist"], case["cachetime"], fresh)
     return (bad[0], bad[1]) if bad else None
@@ -326,6 +335,9 @@ def run(ck):
         hs = hists if cachetime == 180 else [h for h in hists if len(h) <= 2]
         for ch in core.chunks(hs, core.NPROC * 2):
             bshards.append((cachetime, ch))
+        # the plain DirHandler list (dot-files are listed there): ordered pairs
+        for ch in core.chunks([h for h in hists if len(h) == 2], core.NPROC):
+            bshards.append((cachetime, ch, PLAIN_DIR_LIST))
     ck.pmap(_shard_b, bshards)
     ck.rule = (
         "(a) every request = wrapper x encoding x path (<=2 segments over %d segments x 3 separators, <=3 over the core alphabet, "
